@@ -261,10 +261,17 @@ class _Canon(ast.NodeTransformer):
                 setattr(node, fld, self._fold_loops(b))
         return node
 
+    def visit_Module(self, n):
+        # module-level tables `_NAME = (<literals>)` bound once and never mutated: a loop `for a, b in _NAME` inside a function
+        # of the module is as static as one over a local literal (normalize.unroll_static_loops)
+        from .normalize import module_tables
+        self._module_tables = module_tables(n)
+        return self.generic_visit(n)
+
     def visit_FunctionDef(self, n):
         n = self.generic_visit(n)
         from .normalize import normalize_function
-        return normalize_function(n)
+        return normalize_function(n, getattr(self, "_module_tables", None))
 
     def visit_IfExp(self, n):
         self.generic_visit(n)
